@@ -198,10 +198,10 @@ def plan_for(prop, tier, seed):
                   "or a parameter list longer than 0")
         p.nontrivial = lambda sc: True
         p.families = [
-            ("spi-grid", True, "dev", lambda ids, rng: G.f_spi_grid(ids, rng, sample=0.5 if q else 1.0, big=6 if q else 120)),
+            ("spi-grid", True, "dev", lambda ids, rng: G.f_spi_grid(ids, rng, sample=0.5 if q else 1.0, big=6 if q else 600)),
             ("spi-displays", True, "dev", lambda ids, rng: G.f_tiny_placement(ids, rng, ifaces=("spi",), sample=0.04 if q else 0.4)),
-            ("spi-smallalpha", True, "dev", lambda ids, rng: G.f_small_alphabet(ids, rng, 400 if q else 6000, ifaces=("spi",))),
-            ("spi-faults", True, "dev", lambda ids, rng: G.f_xport_faults(ids, rng, ifaces=("spi",), n=200 if q else 3000)),
+            ("spi-smallalpha", True, "dev", lambda ids, rng: G.f_small_alphabet(ids, rng, 400 if q else 20000, ifaces=("spi",))),
+            ("spi-faults", True, "dev", lambda ids, rng: G.f_xport_faults(ids, rng, ifaces=("spi",), n=200 if q else 20000)),
             ("spi-contig", True, "dev", lambda ids, rng: G.f_contig_tiny(ids, rng, sample=0.1 if q else 0.8, ifaces=("spi",))),
         ]
     elif prop == "C07":
@@ -210,10 +210,10 @@ def plan_for(prop, tier, seed):
                   "with injected data-pin failures; non-trivial: equal consecutive words, an all-equal repeated pixel, or a failure")
         p.nontrivial = lambda sc: True
         p.families = [
-            ("parallel", True, "dev", lambda ids, rng: G.f_parallel(ids, rng, sample=0.4 if q else 1.0, big=2 if q else 12)),
+            ("parallel", True, "dev", lambda ids, rng: G.f_parallel(ids, rng, sample=0.4 if q else 4.0, big=2 if q else 24)),
             ("parallel-displays", True, "dev", lambda ids, rng: G.f_tiny_placement(ids, rng, ifaces=("p8", "p16"), sample=0.03 if q else 0.3)),
-            ("parallel-smallalpha", True, "dev", lambda ids, rng: G.f_small_alphabet(ids, rng, 300 if q else 5000, ifaces=("p8", "p16"))),
-            ("parallel-faults", True, "dev", lambda ids, rng: G.f_xport_faults(ids, rng, ifaces=("p8", "p16"), n=300 if q else 5000)),
+            ("parallel-smallalpha", True, "dev", lambda ids, rng: G.f_small_alphabet(ids, rng, 300 if q else 20000, ifaces=("p8", "p16"))),
+            ("parallel-faults", True, "dev", lambda ids, rng: G.f_xport_faults(ids, rng, ifaces=("p8", "p16"), n=300 if q else 20000)),
         ]
     elif prop == "C09":
         p.mc = [("MC_Small", "MC_Small_init", 8, 900, None)]
@@ -221,7 +221,7 @@ def plan_for(prop, tier, seed):
                   "tuple is within one unit of an acceptance boundary, contains a zero, or offset + size exceeds 65535")
         p.nontrivial = lambda sc: True
         p.families = [
-            ("init-grid", True, "dev", lambda ids, rng: G.f_init_grid(ids, rng, nrandom=3000 if q else 60000, grid_sample=0.3 if q else 3.0)),
+            ("init-grid", True, "dev", lambda ids, rng: G.f_init_grid(ids, rng, nrandom=3000 if q else 400000, grid_sample=0.3 if q else 10.0)),
         ]
     elif prop in ("C11", "C17"):
         p.mc = [("MC_ModelInit", "MC_ModelInit", 12, 900, None)]
@@ -230,7 +230,7 @@ def plan_for(prop, tier, seed):
                   "Model::init directly where the colour type hides the pairing from Builder")
         p.nontrivial = lambda sc: True
         p.families = [
-            ("model-init", True, "dev", lambda ids, rng: G.f_model_init(ids, rng, full=not q)),
+            ("model-init", True, "dev", lambda ids, rng: [sc for _ in range(1 if q else 3) for sc in G.f_model_init(ids, rng, full=not q)]),
         ]
         if prop == "C17":
             # the reset step under a failing bus: a failure must not make the reset happen twice
@@ -242,7 +242,7 @@ def plan_for(prop, tier, seed):
                   "call in the quick tier and a seeded sample on the parallel transports, every k everywhere in the thorough tier")
         p.nontrivial = lambda sc: bool(sc.get("faults"))
         p.families = [
-            ("faults", True, "dev", lambda ids, rng: {"bases": G.fault_bases(ids, rng, q)}),
+            ("faults", True, "dev", lambda ids, rng: {"bases": [b for _ in range(1 if q else 4) for b in G.fault_bases(ids, rng, q)]}),
         ]
     elif prop == "C13":
         p.mc = [("MC_Lifecycle", "MC_Lifecycle", 4, 900, None), ("MC_ModelInit", "MC_ModelInit", 12, 900, None)]
@@ -250,9 +250,9 @@ def plan_for(prop, tier, seed):
                   "non-trivial: at least two sleep/wake calls")
         p.nontrivial = lambda sc: sum(1 for c in sc["calls"] if c["name"] in ("sleep", "wake")) >= 2
         p.families = [
-            ("lifecycle", True, "dev", lambda ids, rng: G.f_lifecycle(ids, rng, n_per_model=6 if q else 80, length=12 if q else 30)),
-            ("lifecycle-faults", True, "dev", lambda ids, rng: G.f_lifecycle(ids, rng, n_per_model=5 if q else 60, length=10 if q else 24, fault_rate=0.5)),
-            ("lifecycle-faults-anywhere", True, "dev", lambda ids, rng: G.f_lifecycle(ids, rng, n_per_model=8 if q else 80, length=10 if q else 24, fault_rate=0.1, any_fault_rate=0.4,
+            ("lifecycle", True, "dev", lambda ids, rng: G.f_lifecycle(ids, rng, n_per_model=6 if q else 400, length=12 if q else 30)),
+            ("lifecycle-faults", True, "dev", lambda ids, rng: G.f_lifecycle(ids, rng, n_per_model=5 if q else 300, length=10 if q else 24, fault_rate=0.5)),
+            ("lifecycle-faults-anywhere", True, "dev", lambda ids, rng: G.f_lifecycle(ids, rng, n_per_model=8 if q else 300, length=10 if q else 24, fault_rate=0.1, any_fault_rate=0.4,
                                                                                        ifaces=("p8", "p8", "spi", "rec_p8"))),
             ("model-init", True, "dev", lambda ids, rng: G.f_model_init(ids, rng, full=False, after=False)),
         ]
@@ -262,7 +262,7 @@ def plan_for(prop, tier, seed):
                   "or top + bottom > 65535")
         p.nontrivial = lambda sc: True
         p.families = [
-            ("scroll", True, "dev", lambda ids, rng: G.f_scroll(ids, rng, nrandom=300 if q else 6000, offsets="sample" if q else "all")),
+            ("scroll", True, "dev", lambda ids, rng: G.f_scroll(ids, rng, nrandom=300 if q else 100000, offsets="sample" if q else "all")),
         ]
     elif prop == "C05":
         p.rule = ("table rows = blocks of 256 consecutive colour values pushed through the real InterfacePixelFormat::send_pixels "
@@ -273,8 +273,8 @@ def plan_for(prop, tier, seed):
         p.exhaustive = not q
         p.tables = [("colours", True, "dev", lambda rng: G.t_colours(rng, full666=not q))]
         p.families = [
-            ("colour-displays", True, "dev", lambda ids, rng: G.f_colour_displays(ids, rng)),
-            ("colour-sequences", True, "dev", lambda ids, rng: G.f_small_alphabet(ids, rng, 400 if q else 6000, ifaces=("spi", "spi", "p8", "p16"), tag="colour")),
+            ("colour-displays", True, "dev", lambda ids, rng: [sc for _ in range(1 if q else 8) for sc in G.f_colour_displays(ids, rng)]),
+            ("colour-sequences", True, "dev", lambda ids, rng: G.f_small_alphabet(ids, rng, 400 if q else 20000, ifaces=("spi", "spi", "p8", "p16"), tag="colour")),
             ("model-init", True, "dev", lambda ids, rng: G.f_model_init(ids, rng, full=False, after=False)),
         ]
     elif prop == "C14":
@@ -292,13 +292,13 @@ def plan_for(prop, tier, seed):
                   "orientations (closure is reached at length 3), angle parsing over -720..720, the i32 ends, seeded samples and "
                   "a strided (quick) / complete (thorough) sweep of all 2^32 angles against the validated residue table")
         p.exhaustive = not q
-        p.tables = [("orient", True, "dev", lambda rng: G.t_orient(rng, maxlen=3 if q else 4, stride=(1 << 8) if q else 1))]
+        p.tables = [("orient", True, "dev", lambda rng: G.t_orient(rng, maxlen=3 if q else 5, stride=(1 << 8) if q else 1))]
         p.families = [("reorient-drawn", True, "dev", lambda ids, rng: G.f_reorient(ids, rng, G.tiny_model_list([(3, 2), (2, 3)], rng, 4), ifaces=("rec",), sample=0.5 if q else 1.0, tag="orient-drawn"))]
     elif prop == "C18":
         p.rule = ("table rows = every command type with boundary-value, seeded random and (thorough) all-65536-per-position "
                   "arguments, serialised on buffers pre-filled with A5h and 5Ah, and sent through write_command / write_raw")
-        p.tables = [("dcs", True, "dev", lambda rng: G.t_dcs(rng, nrandom=2000 if q else 60000, all_u16=not q))]
-        p.families = [("dcs-over-transports", True, "dev", lambda ids, rng: G.f_dcs_over_transports(ids, rng, n=250 if q else 4000))]
+        p.tables = [("dcs", True, "dev", lambda rng: G.t_dcs(rng, nrandom=2000 if q else 300000, all_u16=not q))]
+        p.families = [("dcs-over-transports", True, "dev", lambda ids, rng: G.f_dcs_over_transports(ids, rng, n=250 if q else 20000))]
     elif prop == "C19":
         p.rule = ("table rows = TestImage drawn on a clipping framebuffer for every size 0x0..NxN (N = 40 quick / 96 thorough) "
                   "and three colour types; predicates evaluated for sizes >= 32x32; scenarios = the image drawn through real "
